@@ -153,3 +153,21 @@ package atree
 //@   ensures (h[1] / 8) % 4 != 1 ==> t == slabMapUndefined
 //@   ensures (h[1] / 8) % 4 == 1 ==> t == ite(h[1] % 8 == 0, slabMapData, ite(h[1] % 8 == 1, slabMapMeta, ite(h[1] % 8 == 2, slabMapLargeEntry, ite(h[1] % 8 == 3, slabMapCollisionGroup, slabMapUndefined))))
 //@   pure
+
+//@ func (a *ArrayDataSlab) HasPointer() (r)  serves C07
+//@   trusted "slices.ContainsFunc(s, f) is true exactly when f holds for some element of s; f is hasPointer, whose verified contract is r == refIn(x)"
+//@   ensures r == (exists k :: 0 <= k && k < len(a.elements) && refIn(a.elements[k]))
+//@   pure
+
+//@ # ---- the head an array leaf writes (C07): version 1, kind array-data, root flag = has extra data, reference flag = some element holds
+//@ # a reference, next-slab flag = has a sibling link, size-limited
+//@ iface Writer.Write(p) (n, err)
+//@   modifies alloc
+
+//@ func (a *ArrayDataSlab) Encode(enc) (err)  serves C07
+//@   requires enc != nil
+//@   before Writer.Write#1: h != nil && h[0] / 16 == 1 && h[1] % 32 == 0 && !bit(h[1], 5)
+//@   before Writer.Write#1: bit(h[1], 7) == (a.extraData != nil)
+//@   before Writer.Write#1: bit(h[1], 6) == (exists k :: 0 <= k && k < len(a.elements) && refIn(a.elements[k]))
+//@   before Writer.Write#1: bit(h[0], 1) == (a.next != SlabIDUndefined)
+//@   modifies heap
